@@ -6,6 +6,9 @@ import Proofs.ScoreMain
 import Proofs.ScoreForgot
 import Proofs.TableBuild
 import Proofs.WellFormed
+import Proofs.ScoreClosed
+import Proofs.Quant
+import Model.QuantBins
 /-! C01 — Query scores follow the ARPA back-off definition in every data structure.
 
 L0 = `KV.Arpa.score` (textbook recursion over the parsed ARPA text), L1 = `KV.Score.fullScore` etc.
@@ -84,6 +87,54 @@ theorem forgot_prob (a : Arpa) (wf : WellFormed a) (unmarked : List Word → Boo
     (ctx : List Word) (w : Word) (hw : a.gram [w] ≠ none) :
     (fullScoreForgotState (tableSearch (build a unmarked)) ctx w).1.prob = score a ctx w :=
   forgot_prob_aux wf (build_tableFor a wf unmarked) ctx hw
+
+/-- **length_longest**: when the model contains the suffix of each of its n-grams, the reported matched length is
+the length of the longest suffix of history + word that is an n-gram of the model. -/
+theorem length_longest (a : Arpa) (wf : WellFormed a) (sc : SuffixClosed a) (unmarked : List Word → Bool)
+    (h : List Word) (s : State) (sf : StateFor a h s) (w : Word) (hw : a.gram [w] ≠ none) :
+    (fullScore (tableSearch (build a unmarked)) s w).1.ngramLength = longestMatch a h w :=
+  length_longest_aux wf sc unmarked sf hw
+
+/-- **indep_left_iff** (as an equation with the L0 specification `independentLeftSpec`): on a suffix-closed model
+the flag is clear exactly when the whole supplied context (the words of the in-state) was matched, the match is
+shorter than the order, and some n-gram of the model extends the match by one word to the left.  Holds for any
+in-state of admissible length (garbage beyond `length` included). -/
+theorem indep_left_iff (a : Arpa) (wf : WellFormed a) (sc : SuffixClosed a) (unmarked : List Word → Bool)
+    (s : State) (hs : s.length ≤ a.order - 1) (w : Word) (hw : a.gram [w] ≠ none) :
+    (fullScore (tableSearch (build a unmarked)) s w).1.independentLeft = false ↔
+      (longestMatch a ((s.words.take s.length).take (a.order - 1)) w = ((s.words.take s.length).take (a.order - 1)).length + 1 ∧
+       longestMatch a ((s.words.take s.length).take (a.order - 1)) w < a.order ∧
+       a.hasLeftExtension (w :: (s.words.take s.length).take (a.order - 1)) = true) := by
+  rw [indep_left_aux wf sc unmarked s hs hw]
+  unfold independentLeftSpec
+  simp only [Bool.not_eq_eq_eq_not, Bool.not_false, Bool.and_eq_true, beq_iff_eq, decide_eq_true_eq]
+  constructor
+  · rintro ⟨⟨h1, h2⟩, h3⟩; exact ⟨h1, h2, h3⟩
+  · rintro ⟨h1, h2, h3⟩; exact ⟨⟨h1, h2⟩, h3⟩
+
+/-- **quant_exact**: a quantised order is lossless whenever its value count (with multiplicity) fits the bins -/
+theorem quant_exact (vals : List Rat) (bins : Nat) (hsorted : vals.Pairwise (· ≤ ·)) (hn : vals.length ≤ bins)
+    (v : Rat) (hv : v ∈ vals) : KV.QuantBins.roundTrip vals bins v = some v :=
+  KV.QuantBins.count_fits_lossless vals bins hsorted hn v hv
+
+/-- a suffix-closed model for the non-vacuity of the structural theorems -/
+def demoClosed : Arpa :=
+  { order := 3,
+    entries := [([0], ⟨-5, 0, false⟩), ([1], ⟨-1, -1/2, false⟩), ([2], ⟨-1, -1/4, false⟩), ([3], ⟨-2, 0, false⟩),
+                ([2,1], ⟨-1/2, -1/8, false⟩), ([3,2], ⟨-3/2, 0, false⟩), ([3,2,1], ⟨-1/3, 0, false⟩)] }
+
+theorem demoClosed_wf : WellFormed demoClosed := wfB_sound demoClosed (by decide +kernel)
+
+theorem demoClosed_closed : SuffixClosed demoClosed := by
+  intro g hg hl
+  obtain ⟨e, he⟩ := Option.ne_none_iff_exists'.mp hg
+  have hm := lookup_some_mem _ _ _ he
+  simp [demoClosed] at hm
+  rcases hm with h | h | h | h | h | h | h <;> (obtain ⟨rfl, _⟩ := h) <;> first | decide +kernel | (simp at hl)
+
+example : (fullScore (tableSearch (build demoClosed)) { length := 2, words := [2, 1], backoff := [-1/4, -1/8] } 3).1.ngramLength = 3 := by
+  decide +kernel
+example : longestMatch demoClosed [2, 1] 3 = 3 := by decide +kernel
 
 /-! ### non-vacuity: a pruned 3-gram model (needs a blank), scored through a blank -/
 
